@@ -16,6 +16,10 @@ EXPECT = {"value": "REPLY", "ref": "REPLY", "nested": "REPLY", "callback": "REPL
           "undecodable": "EXC", "nohandler": "EXC", "unencodable": "EXC"}
 
 
+class CustomBase(BaseException):
+    pass
+
+
 class Fixture(object):
     def __init__(self, unenc_kind="bigint"):
         import rpyc
@@ -41,7 +45,15 @@ class Fixture(object):
 
             def exposed_boom(self, tag):
                 ran(tag)
-                raise ValueError(tag)
+                # any exception counts, including the ones that do not derive from Exception
+                k = len(fx.reqs) % 4
+                if k == 0:
+                    raise ValueError(tag)
+                if k == 1:
+                    raise SystemExit(tag)
+                if k == 2:
+                    raise GeneratorExit(tag)
+                raise CustomBase(tag)
 
             def exposed_unenc(self, tag):
                 ran(tag)
